@@ -1,11 +1,30 @@
 /-
   Lemmas/SchemaEmit.lean — every schema whose names are identifiers and whose values are JSON values
-  is printed as a well-formed expression tree / class body (`schemaExpr_wf`, `classItems_ok`,
-  `classOk_of_src`): the schema-level side conditions of `recognise_module`.
+  is printed as a well-formed expression tree / class body (`schemaExpr_wf X`, `classItems_ok X`,
+  `classOk_of_src X`): the schema-level side conditions of `recognise_module`.
 -/
 import TypedpyModel.Lemmas.PyGram
 namespace Typedpy.Emit
 open Typedpy.PyGram Typedpy.PyLex
+
+/-- the oracle-free version of `targetName` for the generator's own (ASCII) keyword names -/
+def targetNameA (n : List Char) : Bool := asciiIdent n && !forbiddenTarget n
+
+theorem identOk_of_ascii (X : Ora) {n : List Char} (h : asciiIdent n = true) : identOk X n = true := by
+  match n, h with
+  | c :: r, h =>
+    simp only [asciiIdent, Bool.and_eq_true, Bool.not_eq_true', List.all_eq_true, decide_eq_true_eq] at h
+    obtain ⟨⟨⟨hs, ht⟩, hall⟩, hk⟩ := h
+    simp only [identOk, Bool.and_eq_true, Bool.not_eq_true', List.all_eq_true]
+    refine ⟨⟨by rw [idStart_ascii X c (hall c (by simp))]; exact hs, fun d hd => ?_⟩, hk⟩
+    rw [idCont_ascii X d (hall d (by simp [hd]))]; exact ht d hd
+
+theorem targetName_of_ascii (X : Ora) {n : List Char} (h : targetNameA n = true) : targetName X n = true := by
+  simp only [targetNameA, Bool.and_eq_true] at h
+  simp [targetName, identOk_of_ascii X h.1, h.2]
+
+theorem wf_const (X : Ora) (w : List Char) (h : (constKw w && keywords.contains w) = true) :
+    wf X (.const w) = true := by simpa [wf] using h
 
 /-! ### numbers -/
 
@@ -49,35 +68,36 @@ theorem natText_num (n : Nat) : isNumText (natText n) = true := by
     have : numStart c = .int := by simp [numStart, hc]
     simp [isNumText, hd c (by simp), this, numScan_digits t (fun d h => hd d (by simp [h]))]
 
-theorem natExpr_wf (n : Nat) : wf (natExpr n) = true := by simp [natExpr, wf, natText_num]
-theorem intExpr_wf (i : Int) : wf (intExpr i) = true := by
+theorem natExpr_wf (X : Ora) (n : Nat) : wf X (natExpr n) = true := by simp [natExpr, wf, natText_num]
+theorem intExpr_wf (X : Ora) (i : Int) : wf X (intExpr i) = true := by
   unfold intExpr; split <;> simp [wf, natText_num]
 
 /-- the `repr(float)` oracle answers with decimal literals -/
-def OraOk (O : EOra) : Prop := ∀ q, wf (floatExpr (O.fl q)) = true
+def OraOk (O : EOra) : Prop := ∀ (X : Ora) q, wf X (floatExpr (O.fl q)) = true
 
-theorem qExpr_wf (O : EOra) (hO : OraOk O) (q : Q) : wf (qExpr O q) = true := by
+theorem qExpr_wf (X : Ora) (O : EOra) (hO : OraOk O) (q : Q) : wf X (qExpr O q) = true := by
   unfold qExpr; split
-  · exact intExpr_wf _
-  · exact hO q
+  · exact intExpr_wf X _
+  · exact hO X q
 
-theorem boolExpr_wf (b : Bool) : wf (boolExpr b) = true := by cases b <;> decide
+theorem boolExpr_wf (X : Ora) (b : Bool) : wf X (boolExpr b) = true := by
+  cases b <;> exact wf_const X _ (by decide)
 
 /-! ### values -/
 
 mutual
-theorem valExpr_wf (O : EOra) (hO : OraOk O) : ∀ (v : PyVal), jsonVal v = true → wf (valExpr O v) = true
+theorem valExpr_wf (X : Ora) (O : EOra) (hO : OraOk O) : ∀ (v : PyVal), jsonVal v = true → wf X (valExpr O v) = true
   | .none, _ => by simp [valExpr, wf, constKw, cNone, keywords]
-  | .bool b, _ => boolExpr_wf b
-  | .int i, _ => intExpr_wf i
-  | .float q, _ => hO q
+  | .bool b, _ => boolExpr_wf X b
+  | .int i, _ => intExpr_wf X i
+  | .float q, _ => hO X q
   | .str s, _ => by simp [valExpr, wf]
   | .list xs, h => by
     simp only [jsonVal] at h
-    simp only [valExpr, wf]; exact valExprL_wf O hO xs h
+    simp only [valExpr, wf]; exact valExprL_wf X O hO xs h
   | .dict kvs, h => by
     simp only [jsonVal] at h
-    simp only [valExpr, wf]; exact valExprKV_wf O hO kvs h
+    simp only [valExpr, wf]; exact valExprKV_wf X O hO kvs h
   | .dec _, h => by simp [jsonVal] at h
   | .tuple _, h => by simp [jsonVal] at h
   | .set _ _, h => by simp [jsonVal] at h
@@ -85,77 +105,77 @@ theorem valExpr_wf (O : EOra) (hO : OraOk O) : ∀ (v : PyVal), jsonVal v = true
   | .enumv _ _, h => by simp [jsonVal] at h
   | .inst _ _, h => by simp [jsonVal] at h
   | .opaque _, h => by simp [jsonVal] at h
-theorem valExprL_wf (O : EOra) (hO : OraOk O) : ∀ (xs : List PyVal), jsonValL xs = true → wfL (valExprL O xs) = true
+theorem valExprL_wf (X : Ora) (O : EOra) (hO : OraOk O) : ∀ (xs : List PyVal), jsonValL xs = true → wfL X (valExprL O xs) = true
   | [], _ => rfl
   | x :: xs, h => by
     simp only [jsonValL, Bool.and_eq_true] at h
-    simp [valExprL, wfL, valExpr_wf O hO x h.1, valExprL_wf O hO xs h.2]
-theorem valExprKV_wf (O : EOra) (hO : OraOk O) : ∀ (kvs : List (PyVal × PyVal)), jsonValKV kvs = true →
-    wfKVs (valExprKV O kvs) = true
+    simp [valExprL, wfL, valExpr_wf X O hO x h.1, valExprL_wf X O hO xs h.2]
+theorem valExprKV_wf (X : Ora) (O : EOra) (hO : OraOk O) : ∀ (kvs : List (PyVal × PyVal)), jsonValKV kvs = true →
+    wfKVs X (valExprKV O kvs) = true
   | [], _ => rfl
   | (k, v) :: r, h => by
     simp only [jsonValKV, Bool.and_eq_true] at h
-    simp [valExprKV, wfKVs, valExpr_wf O hO k h.1.1, valExpr_wf O hO v h.1.2, valExprKV_wf O hO r h.2]
+    simp [valExprKV, wfKVs, valExpr_wf X O hO k h.1.1, valExpr_wf X O hO v h.1.2, valExprKV_wf X O hO r h.2]
 end
 
-theorem defaultExpr_wf (O : EOra) (hO : OraOk O) (v : PyVal) (h : jsonVal v = true) :
-    wf (defaultExpr O v) = true := by
-  have := valExpr_wf O hO v h
+theorem defaultExpr_wf (X : Ora) (O : EOra) (hO : OraOk O) (v : PyVal) (h : jsonVal v = true) :
+    wf X (defaultExpr O v) = true := by
+  have := valExpr_wf X O hO v h
   cases v <;> simp_all [defaultExpr, wf]
 
 
 /-! ### schemas -/
 
-theorem wfKws_append : ∀ (a b : List (List Char × PyExpr)), wfKws (a ++ b) = (wfKws a && wfKws b)
+theorem wfKws_append (X : Ora) : ∀ (a b : List (List Char × PyExpr)), wfKws X (a ++ b) = (wfKws X a && wfKws X b)
   | [], b => by simp [wfKws]
-  | (k, v) :: a, b => by simp [wfKws, wfKws_append a b, Bool.and_assoc]
+  | (k, v) :: a, b => by simp [wfKws, wfKws_append X a b, Bool.and_assoc]
 
-theorem wfKws_optKw {α} (k : List Char) (f : α → PyExpr) (o : Option α) (hk : targetName k = true)
-    (hf : ∀ x, wf (f x) = true) : wfKws (optKw k f o) = true := by
+theorem wfKws_optKw (X : Ora) {α} (k : List Char) (f : α → PyExpr) (o : Option α) (hk : targetName X k = true)
+    (hf : ∀ x, wf X (f x) = true) : wfKws X (optKw k f o) = true := by
   cases o <;> simp [optKw, wfKws, hk, hf]
 
-theorem wfKws_kw (k : List Char) (e : PyExpr) (hk : targetName k = true) (he : wf e = true) :
-    wfKws (kw k e) = true := by simp [kw, wfKws, hk, he]
+theorem wfKws_kw (X : Ora) (k : List Char) (e : PyExpr) (hk : targetName X k = true) (he : wf X e = true) :
+    wfKws X (kw k e) = true := by simp [kw, wfKws, hk, he]
 
 theorem names_optKw {α} (k : List Char) (f : α → PyExpr) (o : Option α) :
     (optKw k f o).map (·.1) = if o.isSome then [k] else [] := by
   cases o <;> simp [optKw]
 
-theorem wf_call_default (O : EOra) (hO : OraOk O) (f : List Char) (kws : List (List Char × PyExpr))
-    (d : Option PyVal) (hf : asciiIdent f = true) (hd : dOk d = true)
-    (hn : nodupL (kws.map (·.1) ++ dName d) = true) (hk : wfKws kws = true) :
-    wf (callS f (withDefault O d kws)) = true := by
+theorem wf_call_default (X : Ora) (O : EOra) (hO : OraOk O) (f : List Char) (kws : List (List Char × PyExpr))
+    (d : Option PyVal) (hf : identOk X f = true) (hd : dOk d = true)
+    (hn : nodupL (kws.map (·.1) ++ dName d) = true) (hk : wfKws X kws = true) :
+    wf X (callS f (withDefault O d kws)) = true := by
   have h1 : (withDefault O d kws).map (·.1) = kws.map (·.1) ++ dName d := by
     cases d <;> simp [withDefault, optKw, dName]
-  have h2 : wfKws (withDefault O d kws) = true := by
-    rw [withDefault, wfKws_append, hk]
+  have h2 : wfKws X (withDefault O d kws) = true := by
+    rw [withDefault, wfKws_append X, hk]
     cases d with
     | none => simp [optKw, wfKws]
     | some v =>
-      have h3 : wfKws [(chars!"default", defaultExpr O v)] = true := by
-        have : targetName chars!"default" = true := by decide
-        simp only [wfKws, this, defaultExpr_wf O hO v hd, Bool.and_self]
+      have h3 : wfKws X [(chars!"default", defaultExpr O v)] = true := by
+        have : targetName X chars!"default" = true := targetName_of_ascii X (by decide)
+        simp only [wfKws, this, defaultExpr_wf X O hO v hd, Bool.and_self]
       simpa [optKw] using h3
   simp [callS, wf, hf, h1, hn, h2]
 
-theorem strList_wf (xs : List String) : wf (strList xs) = true := by
+theorem strList_wf (X : Ora) (xs : List String) : wf X (strList xs) = true := by
   simp only [strList, wf]
   induction xs with
   | nil => rfl
   | cons x xs ih => simp [wfL, wf, ih]
 
-theorem arrKws_wf (sz : SizeOpts) (addl : Bool) : wfKws (arrKws sz addl) = true := by
-  have p1 : wfKws (if sz.uniq then kw chars!"uniqueItems" (.const cTrue) else []) = true := by
+theorem arrKws_wf (X : Ora) (sz : SizeOpts) (addl : Bool) : wfKws X (arrKws sz addl) = true := by
+  have p1 : wfKws X (if sz.uniq then kw chars!"uniqueItems" (.const cTrue) else []) = true := by
     cases sz.uniq
     · rfl
-    · exact wfKws_kw _ _ (by decide) (by decide)
-  have p2 : wfKws (if addl then [] else kw chars!"additionalItems" (.const cFalse)) = true := by
+    · exact wfKws_kw X _ _ (targetName_of_ascii X (by decide)) (wf_const X _ (by decide))
+  have p2 : wfKws X (if addl then [] else kw chars!"additionalItems" (.const cFalse)) = true := by
     cases addl
-    · exact wfKws_kw _ _ (by decide) (by decide)
+    · exact wfKws_kw X _ _ (targetName_of_ascii X (by decide)) (wf_const X _ (by decide))
     · rfl
-  have p3 : wfKws (optKw chars!"minItems" natExpr sz.min) = true := wfKws_optKw _ _ _ (by decide) natExpr_wf
-  have p4 : wfKws (optKw chars!"maxItems" natExpr sz.max) = true := wfKws_optKw _ _ _ (by decide) natExpr_wf
-  rw [arrKws, wfKws_append, wfKws_append, wfKws_append, p1, p2, p3, p4]; rfl
+  have p3 : wfKws X (optKw chars!"minItems" natExpr sz.min) = true := wfKws_optKw X _ _ _ (targetName_of_ascii X (by decide)) (natExpr_wf X)
+  have p4 : wfKws X (optKw chars!"maxItems" natExpr sz.max) = true := wfKws_optKw X _ _ _ (targetName_of_ascii X (by decide)) (natExpr_wf X)
+  rw [arrKws, wfKws_append X, wfKws_append X, wfKws_append X, p1, p2, p3, p4]; rfl
 
 theorem arrKws_names (sz : SizeOpts) (addl : Bool) :
     (arrKws sz addl).map (·.1) = (if sz.uniq then [chars!"uniqueItems"] else [])
@@ -173,126 +193,131 @@ theorem schemaKws_names (O : EOra) (defaults : List (String × PyVal)) :
   | [] => rfl
   | (n, s) :: ps => by simp [schemaKws, schemaKws_names O defaults ps]
 
-theorem wf_fields (O : EOra) (hO : OraOk O) (f : List Char) (hf : asciiIdent f = true) (d : Option PyVal)
-    (hd : dOk d = true) (xs : List PyExpr) (hx : wfL xs = true) :
-    wf (callS f (withDefault O d (kw chars!"fields" (.list xs)))) = true := by
-  apply wf_call_default O hO f _ d hf hd
+theorem wf_fields (X : Ora) (O : EOra) (hO : OraOk O) (f : List Char) (hf : identOk X f = true) (d : Option PyVal)
+    (hd : dOk d = true) (xs : List PyExpr) (hx : wfL X xs = true) :
+    wf X (callS f (withDefault O d (kw chars!"fields" (.list xs)))) = true := by
+  apply wf_call_default X O hO f _ d hf hd
   · rcases dName_cases d with h | h <;> rw [h] <;> simp [kw, nodupL]
-  · exact wfKws_kw _ _ (by decide) (by simpa [wf] using hx)
+  · exact wfKws_kw X _ _ (targetName_of_ascii X (by decide)) (by simpa [wf] using hx)
 
 mutual
-theorem schemaExpr_wf (O : EOra) (hO : OraOk O) : ∀ (s : Schema) (d : Option PyVal), emitOk s d = true →
-    wf (schemaExpr O s d) = true
+theorem schemaExpr_wf (X : Ora) (O : EOra) (hO : OraOk O) : ∀ (s : Schema) (d : Option PyVal), emitOk X s d = true →
+    wf X (schemaExpr O s d) = true
   | .ref n, d, h => by simpa [schemaExpr, wf, emitOk] using h
   | .num i mult mn mx ex, d, h => by
     simp only [emitOk] at h
     simp only [schemaExpr]
-    apply wf_call_default O hO _ _ d (by cases i <;> decide) h
+    apply wf_call_default X O hO _ _ d (by cases i <;> exact identOk_of_ascii X (by decide)) h
     · simp only [List.map_append, names_optKw]
       rcases dName_cases d with e | e <;> rw [e] <;>
         cases mult <;> cases mn <;> cases mx <;> cases ex <;> simp [kw, nodupL]
-    · rw [wfKws_append, wfKws_append, wfKws_append, wfKws_optKw _ _ _ (by decide) intExpr_wf,
-        wfKws_optKw _ _ _ (by decide) (qExpr_wf O hO), wfKws_optKw _ _ _ (by decide) (qExpr_wf O hO)]
-      cases ex <;> decide
+    · rw [wfKws_append X, wfKws_append X, wfKws_append X, wfKws_optKw X _ _ _ (targetName_of_ascii X (by decide)) (intExpr_wf X),
+        wfKws_optKw X _ _ _ (targetName_of_ascii X (by decide)) (qExpr_wf X O hO), wfKws_optKw X _ _ _ (targetName_of_ascii X (by decide)) (qExpr_wf X O hO)]
+      cases ex <;> simp [wfKws, kw, targetName_of_ascii X (show targetNameA chars!"exclusiveMaximum" = true by decide),
+        wf_const X cTrue (by decide)]
   | .str lo hi p, d, h => by
     simp only [emitOk] at h
     simp only [schemaExpr]
-    apply wf_call_default O hO _ _ d (by decide) h
+    apply wf_call_default X O hO _ _ d (identOk_of_ascii X (by decide)) h
     · simp only [List.map_append, names_optKw]
       rcases dName_cases d with e | e <;> rw [e] <;> cases lo <;> cases hi <;> cases p <;> simp [kw, nodupL]
-    · rw [wfKws_append, wfKws_append, wfKws_optKw _ _ _ (by decide) natExpr_wf,
-        wfKws_optKw _ _ _ (by decide) natExpr_wf, wfKws_optKw _ _ _ (by decide) (fun _ => by simp [wf])]
+    · rw [wfKws_append X, wfKws_append X, wfKws_optKw X _ _ _ (targetName_of_ascii X (by decide)) (natExpr_wf X),
+        wfKws_optKw X _ _ _ (targetName_of_ascii X (by decide)) (natExpr_wf X), wfKws_optKw X _ _ _ (targetName_of_ascii X (by decide)) (fun _ => by simp [wf])]
       rfl
   | .bool, d, h => by
     simp only [emitOk] at h
     simp only [schemaExpr]
-    apply wf_call_default O hO _ _ d (by decide) h
+    apply wf_call_default X O hO _ _ d (identOk_of_ascii X (by decide)) h
     · rcases dName_cases d with e | e <;> rw [e] <;> simp [kw, nodupL]
     · rfl
   | .enum vs, d, h => by
     simp only [emitOk, Bool.and_eq_true] at h
     simp only [schemaExpr]
-    apply wf_call_default O hO _ _ d (by decide) h.2
+    apply wf_call_default X O hO _ _ d (identOk_of_ascii X (by decide)) h.2
     · rcases dName_cases d with e | e <;> rw [e] <;> simp [kw, nodupL]
-    · exact wfKws_kw _ _ (by decide) (by simpa [wf] using valExprL_wf O hO vs h.1)
+    · exact wfKws_kw X _ _ (targetName_of_ascii X (by decide)) (by simpa [wf] using valExprL_wf X O hO vs h.1)
   | .arrAny sz, d, h => by
     simp only [emitOk] at h
     simp only [schemaExpr]
-    apply wf_call_default O hO _ _ d (by decide) h
+    apply wf_call_default X O hO _ _ d (identOk_of_ascii X (by decide)) h
     · rw [arrKws_names]
       rcases dName_cases d with e | e <;> rw [e] <;> cases sz.uniq <;> cases sz.min <;> cases sz.max <;> simp [kw, nodupL]
-    · exact arrKws_wf sz true
+    · exact arrKws_wf X sz true
   | .arrOf s sz, d, h => by
     simp only [emitOk, Bool.and_eq_true] at h
     simp only [schemaExpr]
-    apply wf_call_default O hO _ _ d (by decide) h.2
+    apply wf_call_default X O hO _ _ d (identOk_of_ascii X (by decide)) h.2
     · rw [List.map_append, arrKws_names]
       rcases dName_cases d with e | e <;> rw [e] <;> cases sz.uniq <;> cases sz.min <;> cases sz.max <;> simp [kw, nodupL]
-    · rw [wfKws_append, arrKws_wf]
-      exact wfKws_kw _ _ (by decide) (schemaExpr_wf O hO s none h.1)
+    · rw [wfKws_append X, arrKws_wf X]
+      exact wfKws_kw X _ _ (targetName_of_ascii X (by decide)) (schemaExpr_wf X O hO s none h.1)
   | .arrPos ss addl sz, d, h => by
     simp only [emitOk, Bool.and_eq_true] at h
     simp only [schemaExpr]
-    apply wf_call_default O hO _ _ d (by decide) h.2
+    apply wf_call_default X O hO _ _ d (identOk_of_ascii X (by decide)) h.2
     · rw [List.map_append, arrKws_names]
       rcases dName_cases d with e | e <;> rw [e] <;> cases sz.uniq <;> cases addl <;> cases sz.min <;> cases sz.max <;> simp [kw, nodupL]
-    · rw [wfKws_append, arrKws_wf]
-      exact wfKws_kw _ _ (by decide) (by simpa [wf] using schemaExprL_wf O hO ss h.1)
+    · rw [wfKws_append X, arrKws_wf X]
+      exact wfKws_kw X _ _ (targetName_of_ascii X (by decide)) (by simpa [wf] using schemaExprL_wf X O hO ss h.1)
   | .mapAny a mn mx, d, h => by
     simp only [emitOk] at h
     simp only [schemaExpr]
-    apply wf_call_default O hO _ _ d (by decide) h
-    · rcases dName_cases d with e | e <;> rw [e] <;> simp [kw, nodupL]
-    · rfl
+    apply wf_call_default X O hO _ _ d (identOk_of_ascii X (by decide)) h
+    · simp only [List.map_append, names_optKw]
+      rcases dName_cases d with e | e <;> rw [e] <;> cases mn <;> cases mx <;> simp [kw, nodupL]
+    · rw [wfKws_append X, wfKws_optKw X _ _ _ (targetName_of_ascii X (by decide)) (natExpr_wf X), wfKws_optKw X _ _ _ (targetName_of_ascii X (by decide)) (natExpr_wf X)]
+      rfl
   | .mapOf v mn mx, d, h => by
     simp only [emitOk, Bool.and_eq_true] at h
     simp only [schemaExpr]
-    apply wf_call_default O hO _ _ d (by decide) h.2
+    apply wf_call_default X O hO _ _ d (identOk_of_ascii X (by decide)) h.2
     · simp only [List.map_append, names_optKw]
       rcases dName_cases d with e | e <;> rw [e] <;> cases mn <;> cases mx <;> simp [kw, nodupL]
-    · have hs : wf (callS chars!"String" []) = true := by decide
-      rw [wfKws_append, wfKws_append, wfKws_optKw _ _ _ (by decide) natExpr_wf,
-        wfKws_optKw _ _ _ (by decide) natExpr_wf,
-        wfKws_kw _ _ (by decide) (by simp [wf, wfL, hs, schemaExpr_wf O hO v none h.1])]
+    · have hs : wf X (callS chars!"String" []) = true := by
+        simp [callS, wf, wfKws, nodupL, identOk_of_ascii X (show asciiIdent chars!"String" = true by decide)]
+      rw [wfKws_append X, wfKws_append X, wfKws_optKw X _ _ _ (targetName_of_ascii X (by decide)) (natExpr_wf X),
+        wfKws_optKw X _ _ _ (targetName_of_ascii X (by decide)) (natExpr_wf X),
+        wfKws_kw X _ _ (targetName_of_ascii X (by decide)) (by simp [wf, wfL, hs, schemaExpr_wf X O hO v none h.1])]
       rfl
   | .obj props defaults req addl, d, h => by
     simp only [emitOk, Bool.and_eq_true] at h
     obtain ⟨⟨⟨hnames, hnd⟩, hp⟩, hd⟩ := h
     simp only [schemaExpr]
-    apply wf_call_default O hO _ _ d (by decide) hd
+    apply wf_call_default X O hO _ _ d (identOk_of_ascii X (by decide)) hd
     · simp only [List.map_append, names_optKw, schemaKws_names]
       simp only [objKwNames] at hnd
       cases addl <;> cases req <;> simpa [kw, List.append_assoc] using hnd
-    · rw [wfKws_append, wfKws_append, wfKws_optKw _ _ _ (by decide) strList_wf,
-        schemaKws_wf O hO defaults props hnames hp]
-      cases addl <;> decide
+    · rw [wfKws_append X, wfKws_append X, wfKws_optKw X _ _ _ (targetName_of_ascii X (by decide)) (strList_wf X),
+        schemaKws_wf X O hO defaults props hnames hp]
+      cases addl <;> simp [wfKws, kw, targetName_of_ascii X (show targetNameA chars!"_additional_properties" = true by decide),
+        wf_const X cFalse (by decide)]
   | .allOf ss, d, h => by
     simp only [emitOk, Bool.and_eq_true] at h
-    exact wf_fields O hO _ (by decide) d h.2 _ (schemaExprL_wf O hO ss h.1)
+    exact wf_fields X O hO _ (identOk_of_ascii X (by decide)) d h.2 _ (schemaExprL_wf X O hO ss h.1)
   | .anyOf ss, d, h => by
     simp only [emitOk, Bool.and_eq_true] at h
-    exact wf_fields O hO _ (by decide) d h.2 _ (schemaExprL_wf O hO ss h.1)
+    exact wf_fields X O hO _ (identOk_of_ascii X (by decide)) d h.2 _ (schemaExprL_wf X O hO ss h.1)
   | .oneOf ss, d, h => by
     simp only [emitOk, Bool.and_eq_true] at h
-    exact wf_fields O hO _ (by decide) d h.2 _ (schemaExprL_wf O hO ss h.1)
+    exact wf_fields X O hO _ (identOk_of_ascii X (by decide)) d h.2 _ (schemaExprL_wf X O hO ss h.1)
   | .notS ss, d, h => by
     simp only [emitOk, Bool.and_eq_true] at h
-    exact wf_fields O hO _ (by decide) d h.2 _ (schemaExprL_wf O hO ss h.1)
+    exact wf_fields X O hO _ (identOk_of_ascii X (by decide)) d h.2 _ (schemaExprL_wf X O hO ss h.1)
   | .unsupported _, _, h => by simp [emitOk] at h
-theorem schemaExprL_wf (O : EOra) (hO : OraOk O) : ∀ (ss : List Schema), emitOkL ss = true →
-    wfL (schemaExprL O ss) = true
+theorem schemaExprL_wf (X : Ora) (O : EOra) (hO : OraOk O) : ∀ (ss : List Schema), emitOkL X ss = true →
+    wfL X (schemaExprL O ss) = true
   | [], _ => rfl
   | s :: ss, h => by
     simp only [emitOkL, Bool.and_eq_true] at h
-    simp [schemaExprL, wfL, schemaExpr_wf O hO s none h.1, schemaExprL_wf O hO ss h.2]
-theorem schemaKws_wf (O : EOra) (hO : OraOk O) (defaults : List (String × PyVal)) :
-    ∀ (ps : List (String × Schema)), (ps.all fun p => targetName p.1.toList) = true →
-    emitOkP defaults ps = true → wfKws (schemaKws O defaults ps) = true
+    simp [schemaExprL, wfL, schemaExpr_wf X O hO s none h.1, schemaExprL_wf X O hO ss h.2]
+theorem schemaKws_wf (X : Ora) (O : EOra) (hO : OraOk O) (defaults : List (String × PyVal)) :
+    ∀ (ps : List (String × Schema)), (ps.all fun p => targetName X p.1.toList) = true →
+    emitOkP X defaults ps = true → wfKws X (schemaKws O defaults ps) = true
   | [], _, _ => rfl
   | (n, s) :: ps, hn, h => by
     simp only [List.all_cons, Bool.and_eq_true] at hn
     simp only [emitOkP, Bool.and_eq_true] at h
-    simp [schemaKws, wfKws, hn.1, schemaExpr_wf O hO s _ h.1, schemaKws_wf O hO defaults ps hn.2 h.2]
+    simp [schemaKws, wfKws, hn.1, schemaExpr_wf X O hO s _ h.1, schemaKws_wf X O hO defaults ps hn.2 h.2]
 end
 
 
@@ -306,32 +331,32 @@ theorem bodyLike_append {a b : List Item} (ha : bodyLike a) (hb : bodyLike b) : 
   · simpa using hb
   · exact Or.inr (by simp [List.any_append, ha])
 
-theorem propItems_ok (O : EOra) (hO : OraOk O) (defaults : List (String × PyVal)) :
-    ∀ (ps : List (String × Schema)), (ps.all fun p => targetName p.1.toList) = true → emitOkP defaults ps = true →
-    (propItems O defaults ps).all wfItem = true ∧ bodyLike (propItems O defaults ps)
+theorem propItems_ok (X : Ora) (O : EOra) (hO : OraOk O) (defaults : List (String × PyVal)) :
+    ∀ (ps : List (String × Schema)), (ps.all fun p => targetName X p.1.toList) = true → emitOkP X defaults ps = true →
+    (propItems O defaults ps).all (wfItem X) = true ∧ bodyLike (propItems O defaults ps)
   | [], _, _ => ⟨rfl, Or.inl rfl⟩
   | (n, s) :: ps, hn, h => by
     simp only [List.all_cons, Bool.and_eq_true] at hn
     simp only [emitOkP, Bool.and_eq_true] at h
-    have ih := propItems_ok O hO defaults ps hn.2 h.2
+    have ih := propItems_ok X O hO defaults ps hn.2 h.2
     refine ⟨?_, Or.inr (by simp [propItems, nonBlank])⟩
-    simp [propItems, wfItem, hn.1, schemaExpr_wf O hO s _ h.1, ih.1]
+    simp [propItems, wfItem, hn.1, schemaExpr_wf X O hO s _ h.1, ih.1]
 
-theorem reqItems_ok (r : Option (List String)) : (reqItems r).all wfItem = true ∧ bodyLike (reqItems r) := by
+theorem reqItems_ok (X : Ora) (r : Option (List String)) : (reqItems r).all (wfItem X) = true ∧ bodyLike (reqItems r) := by
   cases r with
   | none => exact ⟨rfl, Or.inl rfl⟩
   | some r =>
-    have t : targetName nRequired = true := by decide
-    exact ⟨by simp [reqItems, wfItem, t, strList_wf], Or.inr (by simp [reqItems, nonBlank])⟩
+    have t : targetName X nRequired = true := targetName_of_ascii X (by decide)
+    exact ⟨by simp [reqItems, wfItem, t, strList_wf X], Or.inr (by simp [reqItems, nonBlank])⟩
 
-theorem docItems_ok (desc : Option String) (h : descOk desc = true) :
-    (docItems desc).all wfItem = true ∧ bodyLike (docItems desc) := by
+theorem docItems_ok (X : Ora) (desc : Option String) (h : descOk desc = true) :
+    (docItems desc).all (wfItem X) = true ∧ bodyLike (docItems desc) := by
   cases desc with
   | none => exact ⟨rfl, Or.inl rfl⟩
-  | some d => exact ⟨by simpa [docItems, wfItem, descOk] using h, Or.inr (by simp [docItems, nonBlank])⟩
+  | some d => exact ⟨by simp [docItems, wfItem], Or.inr (by simp [docItems, nonBlank])⟩
 
-theorem finish_ok (all : List Item) (h1 : all.all wfItem = true) (h2 : bodyLike all) :
-    (if all.isEmpty then [Item.pass] else all).all wfItem = true
+theorem finish_ok (X : Ora) (all : List Item) (h1 : all.all (wfItem X) = true) (h2 : bodyLike all) :
+    (if all.isEmpty then [Item.pass] else all).all (wfItem X) = true
       ∧ (if all.isEmpty then [Item.pass] else all).any nonBlank = true := by
   rcases h2 with rfl | h2
   · simp [wfItem, nonBlank]
@@ -339,33 +364,33 @@ theorem finish_ok (all : List Item) (h1 : all.all wfItem = true) (h2 : bodyLike 
     | nil => simp at h2
     | cons x xs => simp only [List.isEmpty_cons, Bool.false_eq_true, if_false]; exact ⟨h1, h2⟩
 
-theorem classItems_ok (O : EOra) (hO : OraOk O) (desc : Option String) (s : Schema)
-    (hd : descOk desc = true) (hs : classSchemaOk s = true) :
-    (classItems O desc s).all wfItem = true ∧ (classItems O desc s).any nonBlank = true := by
-  have tA : targetName nAddl = true := by decide
-  have tW : targetName nWrapped = true := by decide
-  have cF : wf (.const cFalse) = true := by decide
-  have hdoc := docItems_ok desc hd
-  have wrapped : ∀ s : Schema, emitOk s none = true →
+theorem classItems_ok (X : Ora) (O : EOra) (hO : OraOk O) (desc : Option String) (s : Schema)
+    (hd : descOk desc = true) (hs : classSchemaOk X s = true) :
+    (classItems O desc s).all (wfItem X) = true ∧ (classItems O desc s).any nonBlank = true := by
+  have tA : targetName X nAddl = true := targetName_of_ascii X (by decide)
+  have tW : targetName X nWrapped = true := targetName_of_ascii X (by decide)
+  have cF : wf X (.const cFalse) = true := wf_const X _ (by decide)
+  have hdoc := docItems_ok X desc hd
+  have wrapped : ∀ s : Schema, emitOk X s none = true →
       ((Item.assign nWrapped (schemaExpr O s none)
-          :: (if typedWrapped s then reqItems (some ["wrapped"]) else [])).all wfItem = true
+          :: (if typedWrapped s then reqItems (some ["wrapped"]) else [])).all (wfItem X) = true
         ∧ bodyLike (Item.assign nWrapped (schemaExpr O s none)
           :: (if typedWrapped s then reqItems (some ["wrapped"]) else []))) := by
     intro s hs
     refine ⟨?_, Or.inr (by simp [nonBlank])⟩
-    have := (reqItems_ok (some ["wrapped"])).1
-    cases typedWrapped s <;> simp [wfItem, tW, schemaExpr_wf O hO s none hs, this]
-  have core : ∀ body : List Item, body.all wfItem = true → bodyLike body →
-      ((if (docItems desc ++ body).isEmpty then [Item.pass] else docItems desc ++ body).all wfItem = true
+    have := (reqItems_ok X (some ["wrapped"])).1
+    cases typedWrapped s <;> simp [wfItem, tW, schemaExpr_wf X O hO s none hs, this]
+  have core : ∀ body : List Item, body.all (wfItem X) = true → bodyLike body →
+      ((if (docItems desc ++ body).isEmpty then [Item.pass] else docItems desc ++ body).all (wfItem X) = true
         ∧ (if (docItems desc ++ body).isEmpty then [Item.pass] else docItems desc ++ body).any nonBlank = true) := by
     intro body hb1 hb2
-    exact finish_ok _ (by simp [List.all_append, hdoc.1, hb1]) (bodyLike_append hdoc.2 hb2)
+    exact finish_ok X _ (by simp [List.all_append, hdoc.1, hb1]) (bodyLike_append hdoc.2 hb2)
   cases s with
   | obj props defaults req addl =>
     simp only [classSchemaOk, Bool.and_eq_true] at hs
-    have hp := propItems_ok O hO defaults props hs.1 hs.2
-    have hr := reqItems_ok (emittedRequired (.obj props defaults req addl))
-    have ha : ((if addl then [] else [Item.assign nAddl (.const cFalse)]).all wfItem = true
+    have hp := propItems_ok X O hO defaults props hs.1 hs.2
+    have hr := reqItems_ok X (emittedRequired (.obj props defaults req addl))
+    have ha : ((if addl then [] else [Item.assign nAddl (.const cFalse)]).all (wfItem X) = true
         ∧ bodyLike (if addl then [] else [Item.assign nAddl (.const cFalse)])) := by
       cases addl
       · exact ⟨by simp [wfItem, tA, cF], Or.inr (by simp [nonBlank])⟩
@@ -394,9 +419,9 @@ theorem classItems_ok (O : EOra) (hO : OraOk O) (desc : Option String) (s : Sche
   | notS ss => simp only [classItems]; exact core _ (wrapped _ hs).1 (wrapped _ hs).2
   | unsupported w => simp [classSchemaOk, emitOk] at hs
 
-theorem classOk_of_src (O : EOra) (hO : OraOk O) (c : ClassSrc) (h : classSrcOk c = true) : classOk O c = true := by
+theorem classOk_of_src (X : Ora) (O : EOra) (hO : OraOk O) (c : ClassSrc) (h : classSrcOk X c = true) : classOk X O c = true := by
   simp only [classSrcOk, Bool.and_eq_true] at h
-  have := classItems_ok O hO c.desc c.schema h.1.2 h.2
+  have := classItems_ok X O hO c.desc c.schema h.1.2 h.2
   simp [classOk, h.1.1, this.1, this.2]
 
 end Typedpy.Emit
